@@ -16,7 +16,7 @@ import (
 )
 
 // C04 (Engine W, batch enumeration): every ordered selection of <= 3 swap requests out of a
-// 13-request alphabet is placed in ONE real block (each request has its own sender and, where
+// 15-request alphabet is placed in ONE real block (each request has its own sender and, where
 // stated, its own recipient so that balance deltas are attributable), alone and together with one
 // price-moving transaction before or after them; the block is followed by an empty block.
 
@@ -68,6 +68,10 @@ func c04Requests() []c04Req {
 		{Name: "bydenom_exact_out_atom_for_usdc", Sender: "r0", In: "uusdc", Out: "uatom", ExactOut: true, Amt: 5e8, Limit: 1e10},
 		{Name: "in_p3_atom_usdc_quoted_997_r1", Sender: "r1", In: "uatom", Out: "uusdc", Amt: 5e8, Quote: 0.997},
 		{Name: "in_p3_atom_usdc_quoted_997_r2", Sender: "r2", In: "uatom", Out: "uusdc", Amt: 5e8, Quote: 0.997},
+		// exact-out over two hops whose LATER hop is the oracle pool (its real charge includes the
+		// weight-breaking fee, the per-hop estimate does not); the sender also holds the intermediate denom
+		{Name: "out_2hop_elys_usdc_atom_large_loose", Sender: "r4", In: "uelys", Out: "uatom", ExactOut: true, Amt: 2e10, Limit: 1e13, Mid: "uusdc"},
+		{Name: "out_2hop_elys_usdc_atom_small_loose", Sender: "r5", In: "uelys", Out: "uatom", ExactOut: true, Amt: 1e8, Limit: 1e13, Mid: "uusdc"},
 	}
 	rs[0].Build = in(&rs[0], rin(1, "uatom"))
 	rs[1].Build = in(&rs[1], rin(1, "uatom"))
@@ -83,6 +87,8 @@ func c04Requests() []c04Req {
 	rs[9].Build = in(&rs[9], rin(2, "uusdc"))
 	rs[11].Build = in(&rs[11], rin(3, "uusdc"))
 	rs[12].Build = in(&rs[12], rin(3, "uusdc"))
+	rs[13].Build = out(&rs[13], rout(2, "uelys"), rout(1, "uusdc"))
+	rs[14].Build = out(&rs[14], rout(2, "uelys"), rout(1, "uusdc"))
 	rs[10].Build = func(w *World, r *c04Req) sdk.Msg {
 		// exact-out by denom: Amount is the wanted OUT amount; MaxAmount (denominated in the out denom by
 		// the message's own rule) caps the input
@@ -299,6 +305,14 @@ func c04RunUnit(x *Explorer, u c04Unit, validate bool) *KStats {
 		for _, a := range []string{r.Sender, rc} {
 			for _, dn := range c04Denoms {
 				if (a == r.Sender && dn == r.In) || (a == rc && dn == r.Out) {
+					continue
+				}
+				if a == r.Sender && dn == r.Mid && r.ExactOut && d(a, dn).IsPositive() {
+					// an exact-out route buys the ESTIMATED need of the intermediate denom on the first hop; when
+					// the later hop then charges less, the change stays with the sender — paid for by the sender's
+					// own input within the stated maximum, so nothing the statement forbids. A DEBIT in a denom
+					// the sender never offered is a violation.
+					st.Clauses["exact_out_route_left_intermediate_change_with_sender"]++
 					continue
 				}
 				if !d(a, dn).IsZero() {
